@@ -156,6 +156,24 @@ def run(ctx):
                 got = "".join(chr(c) for c in e["seq"])
                 if not e["ok"] or got != s:
                     ctx.violation("layout-not-parsed-to-its-residues", {"file": content}, expected=s, actual=(e["ok"], got))
+    # far beyond the enumerated bound (harness comparison only: these files are too long for TLC's recursive parser model):
+    # a file much larger than an I/O buffer, a header longer than any line-length limit, very long single lines
+    bigseq = (common.random_sequences(ctx.rng, 1, 500, 400)[0] * 40)[:ctx.rng.randint(11000, 13000)]
+    hdr = ">sp|Q00000|LONG_HEADER " + " ".join("word%d" % k for k in range(400))
+    for content, valid in (
+            (">big\n" + "\n".join(bigseq[i:i + 60] for i in range(0, len(bigseq), 60)) + "\n", True),
+            (">big\n" + "\n".join(bigseq[i:i + 60] for i in range(0, len(bigseq), 60)) + "\n>second\nKE\n", False),
+            (">big\n" + "\n".join(bigseq[i:i + 60] for i in range(0, 9000, 60)) + "\nKE-KE\n", False),
+            (hdr + "\n" + bigseq[:300] + "\n", True),
+            (hdr + "KEKEKEKEKE" * 120 + "\n" + bigseq[:300] + "\n", True),
+            (bigseq + "\n", True), (bigseq[:5000] + "*" + "\n" + bigseq[5000:5010] + "\n", False)):
+        e = parse_event(ctx, lc, files, content)
+        if e:
+            got = "".join(chr(c) for c in e["seq"])
+            want = "".join(c for c in content.split("\n", 1)[1] if c.isalpha()) if content.startswith(">") else "".join(c for c in content if c.isalpha())
+            if e["ok"] != valid or (valid and got != want):
+                ctx.violation("accepted-invalid-file" if e["ok"] and not valid else "file-sequence-differs" if e["ok"] else "rejected-valid-file",
+                              {"file": content[:80] + "...", "length": len(content)}, expected=(valid, len(want)), actual=(e["ok"], len(got)))
     # single-character corruptions of small layouts
     small = [">hdr 1\nKEGS TYWA 10\nLMNP*\n", "ACDEF\n\nGHIKL\n", "  1 MKV LAA\n  7 GIV*", ">x\r\nKE\r\nGS\r\n"]
     alphabet = list("KEx 1*>\t\n-") + ["\r", "é", "\x0c"]
